@@ -4,3 +4,9 @@ open Model.C09
 #print axioms closure_eq_source
 #print axioms fetch_eq_source
 #print axioms load_eq_source
+#print axioms sameLog_of_newLog
+#print axioms rebuilt_equals_original
+#print axioms inv_l5
+#print axioms Model.newLog_rebuilds
+#print axioms Model.newLog_values
+#print axioms Model.inv_transfer
